@@ -165,6 +165,45 @@ func streamLayout(g *gen.G) *layout {
 	return l
 }
 
+// streamGrid: a systematic family of three-layer file chains. The base holds
+// 1..7 documents; the middle layer holds two documents in either order - one
+// appended by `$match: null` (or matched by pattern / by default), one matched by
+// pattern; the top layer has no $match and must reach EVERY document of the
+// layer below, the appended one included. (The number of documents matters:
+// bookkeeping slices shared between the documents of a file have spare
+// capacity only for some lengths.)
+func streamGrid() []*layout {
+	var out []*layout
+	for nb := 1; nb <= 7; nb++ {
+		for variant := 0; variant < 4; variant++ {
+			var base []any
+			for i := 0; i < nb; i++ {
+				base = append(base, map[string]any{"id": i, "name": fmt.Sprintf("a%d", i)})
+			}
+			appended := map[string]any{"$match": nil, "name": "extra"}
+			byPattern := map[string]any{"$match": map[string]any{"id": 0}, "b": 1}
+			var mid []any
+			switch variant {
+			case 0:
+				mid = []any{appended, byPattern}
+			case 1:
+				mid = []any{byPattern, appended}
+			case 2:
+				mid = []any{appended, map[string]any{"all": true}}
+			default:
+				mid = []any{appended, map[string]any{"$match": map[string]any{"name": "extra"}, "found": true}, byPattern}
+			}
+			top := []any{map[string]any{"tag": "c"}}
+			l := &layout{Fs: map[string]fsx.Entry{}, Root: "/", Inputs: []string{"a.b.c.yaml"}}
+			l.Fs["/w/a.yaml"] = fsx.Entry{Kind: "file", Docs: toTagged(base)}
+			l.Fs["/w/a.b.yaml"] = fsx.Entry{Kind: "file", Docs: toTagged(mid)}
+			l.Fs["/w/a.b.c.yaml"] = fsx.Entry{Kind: "file", Docs: toTagged(top)}
+			out = append(out, l)
+		}
+	}
+	return out
+}
+
 func C02(r *Run) {
 	st := modelHistories(r, "C02", r.Pick(3, 4))
 	r.Logf("model: %d states, %d histories replayed", st.States, st.Replayed)
@@ -184,8 +223,14 @@ func C02(r *Run) {
 	var wg sync.WaitGroup
 	sem := make(chan struct{}, Cores())
 	files := 0
-	for i := 0; i < nf; i++ {
-		l := streamLayout(g)
+	grid := streamGrid()
+	for i := 0; i < nf+len(grid); i++ {
+		var l *layout
+		if i < len(grid) {
+			l = grid[i]
+		} else {
+			l = streamLayout(g)
+		}
 		wg.Add(1)
 		sem <- struct{}{}
 		go func() {
